@@ -59,6 +59,9 @@ type GroupSpec struct {
 	Sub          []*GroupSpec `json:"sub,omitempty"`
 	Pos          []*ArgSpec   `json:"pos,omitempty"`
 	PosRequired  bool         `json:"pos_required,omitempty"`
+	// ViaPtr (nested groups): the field is a nil pointer to the group's struct,
+	// which the library allocates when it reads the declaration.
+	ViaPtr bool `json:"via_ptr,omitempty"`
 }
 
 type CmdSpec struct {
@@ -100,9 +103,10 @@ type DeclSpec struct {
 	Usage          string       `json:"usage,omitempty"`
 	ShortDesc      string       `json:"short_desc,omitempty"`
 	LongDesc       string       `json:"long_desc,omitempty"`
-	Namespace      string       `json:"namespace,omitempty"`     // set on the parser itself
-	EnvNamespace   string       `json:"env_namespace,omitempty"` // set on the parser itself
-	Reenter        bool         `json:"reenter,omitempty"`       // Execute / handler / callbacks call back into the parser (WriteHelp)
+	Namespace      string       `json:"namespace,omitempty"`      // set on the parser itself
+	EnvNamespace   string       `json:"env_namespace,omitempty"`  // set on the parser itself
+	Reenter        bool         `json:"reenter,omitempty"`        // Execute / handler / callbacks call back into the parser (WriteHelp)
+	NSDelimEmpty   bool         `json:"ns_delim_empty,omitempty"` // the namespace delimiter is set to the empty string
 	// LateGroups: top-level groups (by name) that the program adds with AddGroup
 	// only later, when the history reaches an "addgroup" operation.
 	LateGroups []string `json:"late_groups,omitempty"`
@@ -406,7 +410,11 @@ func groupType(g *GroupSpec) reflect.Type {
 		if s.Hidden {
 			tagKV(&b, "hidden", "yes")
 		}
-		fs = append(fs, reflect.StructField{Name: fmt.Sprintf("Sub%d", i), Type: groupType(s), Tag: reflect.StructTag(b.String())})
+		st := groupType(s)
+		if s.ViaPtr {
+			st = reflect.PtrTo(st)
+		}
+		fs = append(fs, reflect.StructField{Name: fmt.Sprintf("Sub%d", i), Type: st, Tag: reflect.StructTag(b.String())})
 	}
 	if len(g.Pos) > 0 {
 		var pf []reflect.StructField
@@ -577,9 +585,13 @@ type Built struct {
 	Err        error // declaration rejected by the library
 	KeptIni    *flags.IniParser
 	lateAdds   []func() error
+	ptrGroups  []func()
 }
 
 func nsDelim(d *DeclSpec) string {
+	if d.NSDelimEmpty {
+		return ""
+	}
 	if d.NSDelim != "" {
 		return d.NSDelim
 	}
@@ -600,6 +612,9 @@ type walkCtx struct {
 	hidden   bool
 	ownGroup bool // the struct is the command's own data (section = command path)
 }
+
+// sharedInits: initial slice values shared by all parsers of the process.
+var sharedInits = map[string]reflect.Value{}
 
 func (b *Built) bindGroup(g *GroupSpec, v reflect.Value, c walkCtx, gpath string) {
 	ns, ens := c.ns, c.ens
@@ -629,7 +644,24 @@ func (b *Built) bindGroup(g *GroupSpec, v reflect.Value, c walkCtx, gpath string
 		if isFuncKind(o.Kind) {
 			fv.Set(makeCallback(bo.Path, fv.Type()))
 		} else if o.Init != nil {
-			setV(fv, o.Kind, *o.Init)
+			if isSliceKind(o.Kind) && !o.Init.Nil && len(o.Init.L) > 0 {
+				// the program initialises the field from a package-level default slice:
+				// every parser of the process starts from the very same backing array
+				key := bo.Path + "\x00" + o.Kind + "\x00" + mustJSON(o.Init)
+				sv, ok := sharedInits[key]
+				if !ok || sv.Type() != fv.Type() {
+					if len(sharedInits) > 2000 {
+						sharedInits = map[string]reflect.Value{}
+					}
+					tmp := reflect.New(fv.Type()).Elem()
+					setV(tmp, o.Kind, *o.Init)
+					sv = tmp
+					sharedInits[key] = sv
+				}
+				fv.Set(sv)
+			} else {
+				setV(fv, o.Kind, *o.Init)
+			}
 		}
 		b.Opts = append(b.Opts, bo)
 		b.ByPath[bo.Path] = bo
@@ -637,6 +669,16 @@ func (b *Built) bindGroup(g *GroupSpec, v reflect.Value, c walkCtx, gpath string
 	for i, s := range g.Sub {
 		c2 := c
 		c2.ns, c2.ens, c2.hidden, c2.ownGroup = ns, ens, hidden, false
+		if s.ViaPtr {
+			// bound once the library has allocated the struct (see finishPtrGroups)
+			s, fv, sub := s, v.FieldByName(fmt.Sprintf("Sub%d", i)), gpath+"/"+s.Name
+			b.ptrGroups = append(b.ptrGroups, func() {
+				if fv.Kind() == reflect.Ptr && !fv.IsNil() {
+					b.bindGroup(s, fv.Elem(), c2, sub)
+				}
+			})
+			continue
+		}
 		b.bindGroup(s, v.FieldByName(fmt.Sprintf("Sub%d", i)), c2, gpath+"/"+s.Name)
 	}
 	if len(g.Pos) > 0 {
@@ -707,6 +749,9 @@ func Build(spec *DeclSpec) (b *Built) {
 	b.P = p
 	if spec.NSDelim != "" {
 		p.NamespaceDelimiter = spec.NSDelim
+	}
+	if spec.NSDelimEmpty {
+		p.NamespaceDelimiter = ""
 	}
 	if spec.EnvNSDelim != "" {
 		p.EnvNamespaceDelimiter = spec.EnvNSDelim
@@ -800,6 +845,20 @@ func Build(spec *DeclSpec) (b *Built) {
 				cur.out.Completions = append(cur.out.Completions, BStr(it.Item+"\t"+it.Description))
 			}
 			cur.out.CompletionCalls++
+			if spec.Reenter && cur.compDepth == 0 && len(cur.sc.ReenterArgv) > 0 {
+				// the handler calls back into the parser while completion mode is on
+				cur.compDepth++
+				p.ParseArgs(strs(cur.sc.ReenterArgv))
+				cur.compDepth--
+			}
+		}
+	}
+	// groups declared as nil pointers exist now: bind their fields
+	for len(b.ptrGroups) > 0 {
+		fs := b.ptrGroups
+		b.ptrGroups = nil
+		for _, f := range fs {
+			f()
 		}
 	}
 	// canonical ranks for pointer-keyed maps: declaration order
